@@ -23,12 +23,12 @@ static std::string seqStr(const std::vector<TaskV>& a) {
 	if (a.size() > 10) s += " ...";
 	return s + "]";
 }
-static bool isBare(const Info& f, uint8_t s) { return s != NOID && s < 64 && ((f.bare >> s) & 1); }
-static int injOf(const Info& f, uint8_t s) { return s == NOID ? f.headInj : (s < 64 ? f.inj[s] : 0); }
+static bool isBare(const Info& f, uint8_t s) { return s != NOID && s < MASK_BITS && ((f.bare >> s) & 1); }
+static int injOf(const Info& f, uint8_t s) { return s == NOID ? f.headInj : (s < MASK_BITS ? f.inj[s] : 0); }
 
 // ---- report tracking shared by C08 / C09 -------------------------------------------------------------
 struct Reports {
-	uint64_t succS = 0, succP = 0, failS = 0, failP = 0;   // strict / permissive outstanding reports
+	Mask succS = 0, succP = 0, failS = 0, failP = 0;   // strict / permissive outstanding reports
 	bool everAppended = false;
 	void clearAll() { succS = succP = failS = failP = 0; }
 };
@@ -42,7 +42,7 @@ struct CycleInfo {   // per update/react window, filled by walkReports
 	bool everAppended = false;
 };
 
-static uint64_t bit(uint8_t s) { return s < 64 ? (1ull << s) : 0; }
+static Mask bit(uint8_t s) { return s < MASK_BITS ? (Mask(1) << s) : Mask(0); }
 
 // Walks the trace once and computes, for every window index, the CycleInfo.
 static std::vector<CycleInfo> walkReports(const Trace& t, const Analysis& A) {
